@@ -47,11 +47,12 @@ BAD = lambda k="arg": ["bad", k]                        # noqa: E731
 BAD_KINDS = ["arg", "ret", "func", "unhash_arg", "unhash_ret", "unhash_set"]   # the last three are also unhashable
 ALT = "alt_traces"                                      # a second table in the same file
 
-A1 = ["add", 0, [T("m", "my_func"), BAD("arg"), T("m", "myXfunc"), T("m", "MY_FUNC")]]
-A2 = ["add", 1, [T("m", "foo"), T("m", "Foo.bar"), BAD("unhash_arg"), T("M", "foo"), T("m", "my_func"), T("m", "foo")], -1]      # the day before
+# add(traces: Iterable[CallTrace]): the batch is handed over as a generator / tuple / iterator / list / dict view
+A1 = ["add", 0, [T("m", "my_func"), BAD("arg"), T("m", "myXfunc"), T("m", "MY_FUNC")], None, "gen"]
+A2 = ["add", 1, [T("m", "foo"), T("m", "Foo.bar"), BAD("unhash_arg"), T("M", "foo"), T("m", "my_func"), T("m", "foo")], -1, "tuple"]      # the day before
 A3 = ["add", 2, [T("m", "a%b", 1), BAD("func"), T("m", "aXXb", 1), T("", "foo", 2),
                  T("m", "a[b", 1), T("m", "a[b]c", 1), T("m", "a?c", 1), T("m", "aXc", 1), T("m", "a*b", 1),
-                 T("m", "a\\b", 1)]]
+                 T("m", "a\\b", 1)], None, "iter"]
 # rows of one function that differ in exactly one column each (arg_types / return_type / yield_type, NULL vs text)
 A4 = ["add", 1, [T("m", "foo", 0), T("m", "foo", 8), T("m", "foo", 9), T("m", "foo", 6), T("m", "foo", 7),
                  T("m", "foo", 10), T("m", "foo", 8)], 2]                                         # two days later
@@ -112,7 +113,8 @@ def random_history(rnd, maxlen=40, nconn=3, tables=None):
                 else:
                     specs.append(T(rnd.choice(["m", "m", "M", ""]), rnd.choice(sm.QUALNAMES + sm.GLOB_QUALNAMES),
                                    rnd.choice([0, 0, 0, 1, 2, 3, 6, 7, 8, 9, 10])))
-            ops.append(["add", rnd.randrange(3), specs, rnd.choice([None, None, -2, -1, 0, 1, 3])])
+            ops.append(["add", rnd.randrange(3), specs, rnd.choice([None, None, -2, -1, 0, 1, 3]),
+                        rnd.choice(sm.CONTAINERS)])
         elif x < 0.45:
             specs = [T(rnd.choice(["m", "M"]), rnd.choice(sm.QUALNAMES), rnd.choice([0, 1])) for _ in range(rnd.randint(1, 4))]
             f = rnd.choice(["interrupt", "interrupt", "locked", "evil"])
@@ -181,7 +183,7 @@ def campaign_positions(tier):
                 specs.append(specs[0])                    # an exact duplicate within the batch
             if mask % 8 == 6:
                 specs.insert(1, specs[-1])
-            ops.append(["add", mask % 3, specs])
+            ops.append(["add", mask % 3, specs, None, sm.CONTAINERS[(mask // 3) % len(sm.CONTAINERS)]])
             ops.append(["table"])
             if mask % 5 == 0:
                 ops.append(["filter", (mask + 1) % 3, "m", None, 2000])
@@ -570,11 +572,13 @@ def summarise_ops(ops):
         if op[0] == "tables":
             out.append("stores " + ", ".join(f"conn{i} on table {t}" for i, t in enumerate(op[1])))
         if op[0] in ("add", "add_fault"):
-            rows = [f"{r[0]}:{r[1]}" if r else "<unserialisable>" for r in sm.batch_rows(op[2])]
+            rows = [f"{r[0]}:{r[1]}" if r else "<unserialisable>" for r in sm.op_rows(op)]
             if len(rows) > 12:
                 rows = f"<batch of {len(rows)} traces, {len([r for r in rows if r != '<unserialisable>'])} serialisable: " \
                        f"{rows[:3]} ...>"
             day = f", day{op[3]:+d}" if op[0] == "add" and len(op) > 3 and op[3] is not None else ""
+            if sm.container_of(op) != "list":
+                day += f", batch passed as {sm.container_of(op)}"
             out.append(("add" if op[0] == "add" else f"add[{op[3][0]}]") + f"(conn{op[1]}, {rows}{day})")
         elif op[0] == "filter":
             out.append(f"filter(conn{op[1]}, {op[2]!r}, {op[3]!r}, {op[4]})")
@@ -833,7 +837,7 @@ def run(ctx):
                 "list_modules); every sequence of <= 3 mutators (adds, interrupted / locked-out / BaseException adds, reopen) "
                 "followed by a sweep of 117 queries (3 modules x 26 prefixes incl. None, '', wildcard and case variants; "
                 "limits 0..3, 2000); random histories of 5..40 operations; batches with unserialisable traces at every "
-                "subset of positions; the same rows committed on different calendar days (patched clock) in every order, "
+                "subset of positions, handed to add() as list / tuple / generator / iterator / dict view; the same rows committed on different calendar days (patched clock) in every order, "
                 "limits 1..d+2; interrupt of the insert at every VM step; reads from inside another connection's "
                 "transaction; SIGKILL of writer processes at VM steps / random times; 2..16 concurrent writers + reader. "
                 "Each case is one history (or one post-fault table / concurrent answer); non-trivial = a row is committed "
